@@ -18,6 +18,9 @@ RULE = ("cases = generator parameter sets from the documented domain (as C15; up
         "and uses at least one privilege escalation to obtain ROOT; distinct by scenario fingerprint.")
 
 
+_SEARCHES = [0]
+
+
 def model_plan(spec, acts, goal_directed=True):
     """Monotone fix-point: apply any action the model predicts to succeed and
     change the state (prob > 0) until the goal holds or nothing changes."""
@@ -201,6 +204,11 @@ def run_source(source, rep, record=True):
                 rep.count("real-closure-used")
             if not solved:
                 # the closure assumes that the order of actions does not matter; confirm with a search
+                _SEARCHES[0] += 1
+                if _SEARCHES[0] > 6:
+                    if record:
+                        rep.count("unconfirmed-unsolvable(search budget of this shard used up)")
+                    return failed
                 found, complete, nstates = real_search(h)
                 if record:
                     rep.count("real-search-used")
